@@ -1,7 +1,9 @@
 // h_xml.cpp - C16: Xml::parse total + safe + error position inside the text; comments wherever white space is allowed; toString -> parse identity;
 //             copies of Xml::Variant values independent of their source
 // modes: exh-c (all strings over a 16-symbol alphabet), exh-t (all token strings over 14 markup tokens), gen (generated valid documents with comments,
-//        processing instructions, references: value oracle + every prefix), mut (mutations), deep (nesting 1000), roundtrip (random element trees), variant (handle histories)
+//        processing instructions, references: value oracle + every prefix), mut (mutations), deep (nesting 1000), roundtrip (random element trees), variant (handle histories),
+//        wide (documents and trees with 4,000-20,000 elements: flat / tabular / moderately nested empty elements, repeated siblings with content, generated valid documents with
+//        many children, a long flat document after a deep one on the same Parser object: accepted, same tree, toString -> parse identity)
 #include "h_doc_common.hpp"
 #include <nstd/Document/Xml.hpp>
 #include <nstd/Error.hpp>
@@ -108,11 +110,14 @@ static const char* xmlClass(const char* t, size_t n, bool* hasComment = 0, bool*
 
 struct PResult { bool ok; int line, col; bool havePos; bool skipped; };
 
-static PResult parseGuarded(const char* text, size_t n, int api, Xml::Element& out, const char* what) {
+static bool g_elideInput = false;   // wide mode: the text (hundreds of KiB) is described by the case's header line instead of being copied into the history
+static PResult parseGuarded(const char* text, size_t n, int api, Xml::Element& out, const char* what, Xml::Parser* reuse = 0) {
   PResult r; r.ok = false; r.line = r.col = 0; r.havePos = false; r.skipped = false;
   bool hasComment, hasPi; const char* cls = xmlClass(text, n, &hasComment, &hasPi);
   if (xHang && hasComment) { cnt("skipped_excluded_inputs"); r.skipped = true; return r; }
+  if (reuse) api = 1;
   if (!strcmp(what, "prefix")) hist.addf("prefix api=%d: the first %lu bytes of the document above\n", api, (unsigned long)n);
+  else if (g_elideInput) hist.addf("%s api=%d len=%lu%s (text elided: regenerate it from the header line)\n", what, api, (unsigned long)n, reuse ? " [same Parser object as before]" : "");
   else { hist.addf("%s api=%d len=%lu \"", what, api, (unsigned long)n); hist.addEsc(text, n); hist.add("\"\n"); }
   Exact e(text, n);
   char keyNT[160], keyMem[160], prefix[120];
@@ -121,13 +126,14 @@ static PResult parseGuarded(const char* text, size_t n, int api, Xml::Element& o
   setctxf("Xml.parse/%s", cls);
   String errStr;
   {
-    Xml::Parser parser;
+    Xml::Parser local; Xml::Parser& parser = reuse ? *reuse : local;
     guardOn(5, keyNT, keyMem, n);
     switch (api % 3) {
     case 0: r.ok = Xml::parse((const char*)e.p, out); break;
     case 1: { String s; s.attach(e.p, e.n); r.ok = parser.parse(s, out); break; }
     default: { String s; s.attach(e.p, e.n); r.ok = Xml::parse(s, out); break; }
     }
+    if (__sanitizer_get_current_allocated_bytes) { size_t cur = __sanitizer_get_current_allocated_bytes(); if (cur > g_memBase) statMax("max_live_heap_growth_in_one_parse_KiB", (long)((cur - g_memBase) >> 10)); }
     guardOff();
     if (!r.ok) {
       if (api % 3 == 1) { r.line = parser.getErrorLine(); r.col = parser.getErrorColumn(); r.havePos = true; errStr = parser.getErrorString(); }
@@ -150,7 +156,7 @@ static PResult parseGuarded(const char* text, size_t n, int api, Xml::Element& o
 
 static bool modelHasAttrLinebreak(const XNode* m) { for (size_t j = 0; j < m->av.n; ++j) if (memchr(m->av[j].p(), '\n', m->av[j].size()) || memchr(m->av[j].p(), '\r', m->av[j].size())) return true; for (size_t j = 0; j < m->kids.n; ++j) if (modelHasAttrLinebreak(m->kids[j])) return true; return false; }
 
-static void roundTrip(const Xml::Element& e, const XNode* m, int api, Cmp& cmp, bool withHeader) {
+static void roundTrip(const Xml::Element& e, const XNode* m, int api, Cmp& cmp, bool withHeader, const char* rejectKey = "Xml.roundtrip/serialised-text-rejected") {
   setctx(withHeader ? "Xml.toString" : "Xml.Element.toString"); hist.add(withHeader ? "Xml::toString\n" : "Element::toString\n");
   guardOn(20, "Xml.toString/nonterminating", "Xml.toString/memory-growth", 0);
   String text = withHeader ? Xml::toString(e) : e.toString();
@@ -159,7 +165,7 @@ static void roundTrip(const Xml::Element& e, const XNode* m, int api, Cmp& cmp, 
   Xml::Element back;
   PResult r = parseGuarded((const char*)text, text.length(), api, back, "reparse");
   if (r.skipped) return;
-  if (!r.ok) { fail(modelHasAttrLinebreak(m) ? K_AVLB : "Xml.roundtrip/serialised-text-rejected", "the text produced by toString is rejected by Xml::parse at line %d column %d", r.line, r.col); }
+  if (!r.ok) { fail(modelHasAttrLinebreak(m) ? K_AVLB : rejectKey, "the text produced by toString is rejected by Xml::parse at line %d column %d", r.line, r.col); }
   setctx("Xml.roundtrip/compare");
   Text path; cmp.go(back, m, path);
   cnt("roundtrips");
@@ -452,6 +458,151 @@ static void deepMode() {
   }
 }
 
+// ================================================================================================ wide documents: thousands of (empty) elements and siblings
+static XNode* wElem(const char* name) { XNode* e = new XNode(false); e->name.adds(name); return e; }
+static void wAttr(XNode* e, const char* k, const char* v) { Bytes kb, vb; kb.adds(k); vb.adds(v); e->an.push(kb); e->av.push(vb); }
+static XNode* wText(const char* t) { XNode* e = new XNode(true); e->text.adds(t); return e; }
+static void wValue(Rng& r, long i, char* buf, size_t cap) {
+  switch (r.below(6)) { case 0: snprintf(buf, cap, "%ld", i); break; case 1: snprintf(buf, cap, "x"); break; case 2: snprintf(buf, cap, "a&b<%ld>", i); break; case 3: snprintf(buf, cap, "\"q'%ld", i); break; case 4: snprintf(buf, cap, "v %ld w", i); break; default: snprintf(buf, cap, "%s", r.chance(1, 2) ? "" : "\xc3\xa4"); break; }
+}
+static void wCount(const XNode* m, long& elements, long& empties, long& maxSiblings) {
+  if (m->isText) return; ++elements; if (!m->kids.n) ++empties; if ((long)m->kids.n > maxSiblings) maxSiblings = (long)m->kids.n;
+  for (size_t j = 0; j < m->kids.n; ++j) wCount(m->kids[j], elements, empties, maxSiblings);
+}
+// moderately nested random tree: `budget` elements in total, nesting at most maxDepth, most leaves without content
+static void wNested(Rng& r, XNode* parent, int depth, int maxDepth, long& budget, long& serial) {
+  static const char* nm[] = { "n", "node", "e", "group", "x-y", "a.b", "leaf", "_u" };
+  long fan = depth == 0 ? budget : (long)r.range(1, depth + 1 >= maxDepth ? 60 : 12);
+  for (long k = 0; k < fan && budget > 0; ++k) {
+    XNode* c = wElem(nm[r.below(8)]); --budget; ++serial;
+    if (r.chance(1, 3)) { char b[40]; wValue(r, serial, b, sizeof b); wAttr(c, "i", b); if (r.chance(1, 4)) wAttr(c, "j", "2"); }
+    parent->kids.push(c);
+    if (depth + 1 < maxDepth && r.chance(1, 4)) wNested(r, c, depth + 1, maxDepth, budget, serial);
+    else if (r.chance(1, 6)) { char b[40]; snprintf(b, sizeof b, "t%ld", serial); c->kids.push(wText(b)); }
+  }
+}
+struct WStyle { int empties; int breaks; };   // empties: 0 "/>", 1 " />", 2 "></n>", 3 mixed; breaks: 0 none, 1 LF, 2 CR LF + indentation between the children of elements without text
+static void wEsc(const Bytes& v, Bytes& out, bool attr) {
+  for (size_t i = 0; i < v.size(); ++i) { char c = v[i];
+    if (c == '&') out.adds("&amp;"); else if (c == '<') out.adds("&lt;"); else if (c == '>') out.adds("&gt;"); else if (attr && c == '"') out.adds("&quot;"); else if (attr && c == '\'') out.adds("&apos;"); else if (attr && c == '\n') out.adds("&#10;"); else if (attr && c == '\r') out.adds("&#13;"); else out.add(c); }
+}
+static void wEmit(const XNode* m, Bytes& out, Rng& r, const WStyle& st, int depth) {
+  if (m->isText) { wEsc(m->text, out, false); return; }
+  out.add('<'); out.add(m->name);
+  for (size_t j = 0; j < m->an.n; ++j) { out.add(' '); out.add(m->an[j]); out.adds("=\""); wEsc(m->av[j], out, true); out.add('"'); }
+  if (!m->kids.n) { int e = st.empties == 3 ? (int)r.below(3) : st.empties; if (e == 0) out.adds("/>"); else if (e == 1) out.adds(" />"); else { out.adds("></"); out.add(m->name); out.add('>'); } return; }
+  out.add('>');
+  bool hasText = false; for (size_t j = 0; j < m->kids.n; ++j) if (m->kids[j]->isText) hasText = true;
+  bool fmt = st.breaks && !hasText;
+  for (size_t j = 0; j < m->kids.n; ++j) { if (fmt) { out.adds(st.breaks == 1 ? "\n" : "\r\n"); for (int k = 0; k <= depth && k < 8; ++k) out.add(' '); } wEmit(m->kids[j], out, r, st, depth + 1); }
+  if (fmt) { out.adds(st.breaks == 1 ? "\n" : "\r\n"); for (int k = 0; k < depth && k < 8; ++k) out.add(' '); }
+  out.adds("</"); out.add(m->name); out.add('>');
+}
+static const char* K_WIDE_REJ = "Xml.parse/valid-document:many-elements/rejected";
+static const char* K_WIDE_RT_REJ = "Xml.roundtrip/many-elements/serialised-text-rejected";
+static const char* K_REUSE_REJ = "Xml.Parser.parse/reused-parser/valid-document/rejected";
+// parse a valid document (optionally on a Parser object that has parsed other documents before) and compare the result with the model
+static bool wParseCompare(const Bytes& text, const XNode* m, int api, Xml::Element& out, const char* what, Xml::Parser* reuse, long elements, long empties) {
+  PResult pr = parseGuarded(text.p(), text.size(), api, out, what, reuse);
+  if (pr.skipped) return false;
+  if (!pr.ok && reuse) { // does a fresh parser accept it?
+    Xml::Element o2; size_t keep = hist.n; PResult p2 = parseGuarded(text.p(), text.size(), 1, o2, "parse-fresh-parser"); hist.n = keep; hist.d[keep] = 0;
+    if (p2.ok) fail(K_REUSE_REJ, "a valid document (%ld elements, %ld without content) is rejected at line %d column %d by a Parser object that parsed other documents before, and accepted by a fresh one", elements, empties, pr.line, pr.col);
+  }
+  if (!pr.ok) fail(K_WIDE_REJ, "a valid document with %ld elements (%ld of them without content) was rejected at line %d column %d", elements, empties, pr.line, pr.col);
+  setctx("Xml.parse/valid-document/compare");
+  Cmp cmp("Xml.parse/valid-document:many-elements", true); Text path; cmp.go(out, m, path);
+  cnt("value_nodes_compared", cmp.nodes); cnt("wide_nodes_compared", cmp.nodes); cnt("wide_documents_compared");
+  return true;
+}
+static void wideMode() {
+  static const char* pname[] = { "flat-empty", "table-of-empty-cells", "built-tree", "flat-start-end-pairs", "siblings-with-content", "nested", "deep-then-flat-same-parser", "generated-valid-document" };
+  g_elideInput = true;
+  const size_t baseCap = g_memCap;
+  for (long idx = opts.start; idx < opts.start + opts.cases; ++idx) {
+    if (!mine(idx)) continue;
+    beginCase(idx);
+    Rng r(opts.seed, 1606, (u64)idx);
+    int pattern = (int)(idx % 8);
+    long N = (idx / 8) % 4 == 3 ? (long)r.range(12000, 20000) : (long)r.range(4200, 9000);   // a function of (seed, idx) only: a replay does not pass --scale
+    WStyle st; st.empties = (int)r.below(4); st.breaks = (int)r.below(3);
+    int api = (int)r.below(3); bool header = r.chance(1, 2);
+    XNode* root = wElem(pattern == 1 ? "table" : "root"); Bytes text; bool fromText = true, comments = false, roundtrip = true;
+    if (r.chance(1, 3)) wAttr(root, "version", "1");
+    switch (pattern) {
+    case 0: case 2: case 3: case 6: {   // flat: N children without content
+      if (pattern == 3) st.empties = 2;
+      bool oneName = r.chance(1, 2);
+      for (long i = 0; i < N; ++i) { XNode* c = wElem(oneName ? "c" : (i % 3 == 0 ? "cell" : i % 3 == 1 ? "b" : "item-x")); if (i % 3 == 1 || r.chance(1, 8)) { char b[40]; wValue(r, i, b, sizeof b); wAttr(c, "v", b); } root->kids.push(c); }
+      if (pattern == 2) { fromText = false; if (r.chance(1, 2)) { delete root; root = wElem("root"); long budget = N, serial = 0; wNested(r, root, 0, (int)r.range(2, 6), budget, serial); } }
+      break; }
+    case 1: {   // rows x cells
+      long cells = (long)r.range(20, 100), rows = (N + cells - 1) / cells;
+      for (long i = 0; i < rows; ++i) { XNode* row = wElem("row"); char b[24]; snprintf(b, sizeof b, "%ld", i); wAttr(row, "n", b); for (long c = 0; c < cells; ++c) { XNode* cell = wElem("cell"); if (c & 1) wAttr(cell, "v", "x"); row->kids.push(cell); } root->kids.push(row); }
+      break; }
+    case 4: {   // N siblings with content
+      for (long i = 0; i < N; ++i) { XNode* it = wElem("item"); char b[40]; snprintf(b, sizeof b, "%ld", i); wAttr(it, "id", b);
+        if (i % 5 == 4) { XNode* sub = wElem("sub"); snprintf(b, sizeof b, "s%ld", i); sub->kids.push(wText(b)); it->kids.push(sub); if (r.chance(1, 2)) { snprintf(b, sizeof b, "tail %ld", i); it->kids.push(wText(b)); } }
+        else { wValue(r, i, b, sizeof b); if (isBlankByte(b[0]) || !b[0]) snprintf(b, sizeof b, "text %ld", i); it->kids.push(wText(b)); }
+        root->kids.push(it); }
+      break; }
+    case 5: { long budget = N, serial = 0; wNested(r, root, 0, (int)r.range(2, 7), budget, serial); break; }
+    default: {  // many generated elements (the grammar of the gen mode: comments, references, both quote kinds, white space) below one root
+      comments = r.chance(1, 2); roundtrip = !comments;
+      DocGen g(r, text, comments, (int)r.range(1, 3));
+      delete root; root = wElem("root");
+      g.ws(0); if (r.chance(1, 2)) { g.pi(); g.ws(0); }
+      text.adds("<root>"); long total = 1;
+      while (total < N) { if (r.chance(1, 3)) g.ws(0); XNode* c = g.element(1); total += countNodes(c); root->kids.push(c); }
+      text.adds("</root>"); g.ws(0);
+      if (xAvlb && modelHasAttrLinebreak(root)) roundtrip = false;   // excluded trigger: line break inside an attribute value that toString has to write
+      break; }
+    }
+    long elements = 0, empties = 0, sib = 0; wCount(root, elements, empties, sib);
+    hist.addf("# wide document pattern=%d (%s) target=%ld elements=%ld without-content=%ld max-siblings=%ld empties-style=%d breaks=%d\n", pattern, pname[pattern], N, elements, empties, sib, st.empties, st.breaks);
+    setItem("wide_patterns", pname[pattern]);
+    // live-heap cap proportional to the document: the parsed tree takes about 4.5 KiB per element (measured), allow 16 KiB per element on top of the 64 MiB base
+    g_memCap = baseCap + (size_t)elements * 16384;
+    Xml::Element out; bool have = false;
+    if (pattern == 6) {
+      // one Parser object: a document nested 1000 deep, (sometimes) a truncated one that fails half-way down, then the flat document with N empty elements, then the deep one again
+      wEmit(root, text, r, st, 0);
+      Xml::Parser parser; int d = 1000;
+      Bytes deep; XNode* droot = 0; XNode* cur = 0;
+      for (int i = 0; i < d; ++i) { deep.adds("<a>"); XNode* e = wElem("a"); if (cur) cur->kids.push(e); else droot = e; cur = e; }
+      Bytes trunc = deep; { int closes = (int)r.below((u64)d); for (int i = 0; i < closes; ++i) trunc.adds("</a>"); }
+      for (int i = 0; i < d; ++i) deep.adds("</a>");
+      hist.addf("# same Parser object: <a> nested %d deep; truncated variant; the flat document; the deep document again\n", d);
+      { Xml::Element o; wParseCompare(deep, droot, 1, o, "parse-deep", &parser, d, 1); }
+      if (r.chance(1, 2)) { Xml::Element o; PResult pt = parseGuarded(trunc.p(), trunc.size(), 1, o, "parse-truncated", &parser); if (pt.ok) cnt("truncated_accepted"); }
+      have = wParseCompare(text, root, 1, out, "parse-wide", &parser, elements, empties);
+      { Xml::Element o; wParseCompare(deep, droot, 1, o, "parse-deep-again", &parser, d, 1); }
+      setctx("Xml.Element.destructor/deep"); delete droot;
+      cnt("reused_parser_sequences");
+    } else if (fromText) {
+      if (pattern != 7) { if (r.chance(1, 3)) text.adds("<?xml version=\"1.0\" encoding=\"UTF-8\"?>\n"); wEmit(root, text, r, st, 0); if (r.chance(1, 2)) text.adds("\n"); }
+      have = wParseCompare(text, root, api, out, "parse-wide", 0, elements, empties);
+    } else {
+      setctx("Xml.Element.build"); hist.add("build the tree through the Element/Variant interface\n");
+      buildElement(root, out, r); have = true; cnt("wide_trees_built");
+    }
+    if (have && roundtrip) {
+      Cmp cmp2("Xml.roundtrip", false); roundTrip(out, root, api, cmp2, header, K_WIDE_RT_REJ);
+      cnt("wide_roundtrips"); cnt("rt_nodes_compared", cmp2.nodes); cnt("wide_nodes_compared", cmp2.nodes);
+      if (!fromText) { setctx("Xml.roundtrip/source-unchanged"); Cmp c2("Xml.toString/source-modified", false, true); Text path; c2.go(out, root, path); }
+    }
+    if (fromText) for (int k = 0; k < 3; ++k) { size_t cut = r.below(text.size() + 1); Xml::Element o3; parseGuarded(text.p(), cut, (int)r.below(3), o3, "prefix"); cnt("prefix_parses"); }
+    cnt("wide_cases"); cnt("wide_elements", elements); cnt("wide_elements_without_content", empties);
+    statMax("max_elements_in_one_document", elements); statMax("max_elements_without_content_in_one_document", empties); statMax("max_siblings_in_one_element", sib); statMax("max_document_bytes", (long)text.size());
+    if (idx % 8 == (idx / 8) % 8) sample("%.900s", hist.c());
+    u64 fp = mix(hashModel(root), (u64)pattern);
+    setctx("Xml.Element.destructor/wide");
+    delete root;
+    endCase(fp, elements >= 4000);
+  }
+  g_elideInput = false; g_memCap = baseCap;
+}
+
 // ================================================================================================ random element trees -> toString -> parse
 static void genRtBytes(Rng& r, Bytes& s, bool attr, u64& classes) {
   int n = r.chance(1, 12) ? (int)r.range(30, 200) : (int)r.below(12);
@@ -664,6 +815,7 @@ int main(int argc, char** argv) {
   else if (!strcmp(m, "deep")) deepMode();
   else if (!strcmp(m, "roundtrip")) roundtripMode();
   else if (!strcmp(m, "variant")) variantMode();
+  else if (!strcmp(m, "wide")) wideMode();
   else harnessBug("unknown mode %s", m);
   cnt("malloc_hook_calls", g_hookCalls);
   leakCheck("Xml/leak");
